@@ -209,14 +209,13 @@ Verdict(d, c) == IF Reasons(d, c) # {} THEN "REJECT" ELSE IF Undecided(d, c) THE
 HPhases == << "examples", "coverage", "fuzzing", "stateful" >>
 HFields == << "hmax", "hderand", "hdb", "hshrink", "hsuppress", "hdeadline", "hseed" >>
 HypValue(d, c, p, f) ==
-  LET eff == Effective(d, c) IN
-  CASE f = "hmax"      -> IF p \in {"fuzzing", "stateful"} THEN eff["max_examples"] ELSE "U"
-    [] f = "hderand"   -> eff["deterministic"]
-    [] f = "hdb"       -> IF p \in {"fuzzing", "stateful"} THEN eff["database"] ELSE "U"
+  CASE f = "hmax"      -> IF p \in {"fuzzing", "stateful"} THEN FieldValue(d, c, "max_examples") ELSE "U"
+    [] f = "hderand"   -> FieldValue(d, c, "deterministic")
+    [] f = "hdb"       -> IF p \in {"fuzzing", "stateful"} THEN FieldValue(d, c, "database") ELSE "U"
     [] f = "hshrink"   -> IF Given(c, "no_shrink") THEN "false" ELSE IF p = "fuzzing" THEN "true" ELSE "U"
-    [] f = "hsuppress" -> IF p = "stateful" /\ ~Given(c, "suppress") THEN "all" ELSE eff["suppress"]
+    [] f = "hsuppress" -> IF p = "stateful" /\ ~Given(c, "suppress") THEN "all" ELSE FieldValue(d, c, "suppress")
     [] f = "hdeadline" -> IF p = "stateful" THEN "none" ELSE "none|15s"
-    [] f = "hseed"     -> eff["seed"]
+    [] f = "hseed"     -> FieldValue(d, c, "seed")
 Match(exp, v) == exp = "U" \/ exp = v \/ (exp = "none|15s" /\ v \in {"none", "15s"})
 
 ---------------------------------------------------------------------------
@@ -246,17 +245,17 @@ Codomain(f) == {Default[f], "U"} \cup UNION {{EffTab[o][n] : n \in {m \in Names[
 (* Effective and Verdict are total, and an accepted command line has a value of the right sort in every field                   *)
 Total == /\ Verdict(door, cmd) \in {"ACCEPT", "REJECT", "U"}
          /\ DOMAIN Effective(door, cmd) = Fields
-         /\ Verdict(door, cmd) = "ACCEPT" => \A f \in Fields : Effective(door, cmd)[f] \in Codomain(f)
+         /\ Verdict(door, cmd) = "ACCEPT" => \A f \in Fields : FieldValue(door, cmd, f) \in Codomain(f)
          /\ \A p \in 1..Len(HPhases) : \A f \in 1..Len(HFields) : HypValue(door, cmd, HPhases[p], HFields[f]) \in STRING
 (* (a) a given valid value is the value of the option's own field, whatever else is given                                       *)
 GivenReaches == \A o \in Opts \ {"request_cert", "request_cert_key", "database"} :
-                   (Given(cmd, o) /\ Kind(cmd, o) = "V") => Effective(door, cmd)[o] = EffTab[o][cmd[o]]
+                   (Given(cmd, o) /\ Kind(cmd, o) = "V") => FieldValue(door, cmd, o) = EffTab[o][cmd[o]]
 (* (b) a field none of whose options is given has its documented default                                                        *)
-DefaultsKept == \A f \in Fields : (\A o \in OptsOf(f) : ~Given(cmd, o)) => Effective(door, cmd)[f] = Default[f]
+DefaultsKept == \A f \in Fields : (\A o \in OptsOf(f) : ~Given(cmd, o)) => FieldValue(door, cmd, f) = Default[f]
 (* (c) giving one more option changes no field of another option                                                                *)
 Ext(o, n) == [cmd EXCEPT ![o] = n]
 Independent == \A o \in Opts : ~Given(cmd, o) => \A n \in Names[o] : \A f \in Fields \ FieldsOf(o) :
-                  Effective(door, Ext(o, n))[f] = Effective(door, cmd)[f]
+                  FieldValue(door, Ext(o, n), f) = FieldValue(door, cmd, f)
 (* (d) an invalid value is always refused; a refusal persists when options are added, unless the added option is the missing one *)
 InvalidRefused == (\E o \in Opts : Kind(cmd, o) = "I") => Verdict(door, cmd) = "REJECT"
 RejectMonotone == \A o \in Opts : ~Given(cmd, o) => \A n \in Names[o] :
@@ -265,10 +264,10 @@ RejectMonotone == \A o \in Opts : ~Given(cmd, o) => \A n \in Names[o] :
 UndecidedSticks == Verdict(door, cmd) = "U" => \A o \in Opts : ~Given(cmd, o) => \A n \in Names[o] : Verdict(door, Ext(o, n)) # "ACCEPT"
 (* (e) the per-phase settings never contradict the configuration record                                                         *)
 HypConsistent == \A k \in 1..Len(HPhases) : LET p == HPhases[k] IN
-                   /\ Match(HypValue(door, cmd, p, "hmax"), Effective(door, cmd)["max_examples"])
-                   /\ HypValue(door, cmd, p, "hderand") = Effective(door, cmd)["deterministic"]
+                   /\ Match(HypValue(door, cmd, p, "hmax"), FieldValue(door, cmd, "max_examples"))
+                   /\ HypValue(door, cmd, p, "hderand") = FieldValue(door, cmd, "deterministic")
                    /\ Given(cmd, "no_shrink") => HypValue(door, cmd, p, "hshrink") = "false"
-                   /\ Given(cmd, "suppress") => HypValue(door, cmd, p, "hsuppress") = Effective(door, cmd)["suppress"]
+                   /\ Given(cmd, "suppress") => HypValue(door, cmd, p, "hsuppress") = FieldValue(door, cmd, "suppress")
 
 ---------------------------------------------------------------------------
 (* export: the catalogue once, then every enumerated command line with the spec's verdict and - as a difference to the base      *)
@@ -288,7 +287,7 @@ View(d, c) ==
   LET v == Verdict(d, c) IN
   [door |-> d, verdict |-> v,
    cmd |-> PairsOf(OptSeq, LAMBDA o : Given(c, o), LAMBDA o : c[o]),
-   diff |-> IF v = "ACCEPT" THEN PairsOf(FieldSeq, LAMBDA f : Effective(d, c)[f] # BaseEff[f], LAMBDA f : Effective(d, c)[f]) ELSE << >>,
+   diff |-> IF v = "ACCEPT" THEN PairsOf(FieldSeq, LAMBDA f : FieldValue(d, c, f) # BaseEff[f], LAMBDA f : FieldValue(d, c, f)) ELSE << >>,
    hdiff |-> IF v = "ACCEPT" THEN HypDiff(d, c) ELSE << >>]
 Export ==
   /\ IF door = "file" /\ cmd = BaseCmd
